@@ -1066,6 +1066,11 @@ _ADAPTORS = {
     'std::option::Option::<T>::map':               ('core::option::Option', ('Some', 1), ('wrap', 'Some'), ('unit', 'None')),
     'std::option::Option::<T>::and_then':          ('core::option::Option', ('Some', 1), ('plain',), ('unit', 'None')),
     'std::option::Option::<T>::unwrap_or_else':    ('core::option::Option', ('None', 0), ('plain',), ('payload', 'Some', 1)),
+    # three-argument forms (self, default, closure): the default operand is what the other arm yields
+    'std::option::Option::<T>::map_or':            ('core::option::Option', ('Some', 1), ('plain',), ('default',)),
+    'std::result::Result::<T, E>::map_or':         ('core::result::Result', ('Ok', 0), ('plain',), ('default',)),
+    # bool::then: `b.then(f)` is `if b { Some(f()) } else { None }`
+    'std::bool::<impl bool>::then':                ('bool', ('true', 1), ('wrap-some',), ('unit', 'None')),
 }
 
 
@@ -1111,11 +1116,14 @@ def model_std_adaptors(j, closure_keys):
             count(blk['term'])
         for bb in range(len(b['blocks'])):
             t = b['blocks'][bb]['term']
-            if t['k'] != 'call' or len(t['args']) != 2:
+            if t['k'] != 'call' or len(t['args']) not in (2, 3):
                 continue
-            spec = _ADAPTORS.get(t['callee'].get('path'))
-            a0, a1 = t['args']
-            if not spec or a1['k'] != 'move' or a1['place']['proj'] or a1['place']['local'] not in built or a0['k'] not in ('move', 'copy'):
+            spec = _ADAPTORS.get(norm_path(t['callee'].get('path') or ''))
+            if not spec or (len(t['args']) == 3) != (spec[3][0] == 'default'):
+                continue
+            a0, a1 = t['args'][0], t['args'][-1]
+            default_op = t['args'][1] if len(t['args']) == 3 else None
+            if a1['k'] != 'move' or a1['place']['proj'] or a1['place']['local'] not in built or (a0['k'] not in ('move', 'copy') and spec[0] != 'bool'):
                 continue
             cl = a1['place']['local']
             if uses[cl] != 2 or t.get('target') is None or len(b['blocks']) > 600:   # the construction and this call
@@ -1126,7 +1134,7 @@ def model_std_adaptors(j, closure_keys):
                 continue
             adt, (vname, vidx), result, other = spec
             span = t['span']
-            xp = a0['place']
+            xp = a0.get('place') or {'local': 0, 'proj': []}
             nargs = orig.get('arg_count', 1) - 1
             ret_ty = orig['locals'][0]['ty']
             disc = _mk_local(b, 'isize')
@@ -1134,14 +1142,17 @@ def model_std_adaptors(j, closure_keys):
             dest, target, unwind = t['dest'], t['target'], t.get('unwind')
             base = len(b['blocks'])
             b_call, b_after, b_other = base, base + 1, base + 2
-            b['blocks'][bb]['stmts'].append({'k': 'assign', 'dest': {'local': disc, 'proj': []}, 'rv': {'k': 'discr', 'place': copy.deepcopy(xp)}, 'span': span})
-            b['blocks'][bb]['term'] = {'k': 'switch', 'discr': {'k': 'move', 'place': {'local': disc, 'proj': []}}, 'discr_ty': 'isize',
-                                       'targets': [[vidx, b_call]], 'otherwise': b_other, 'span': span}
+            if adt == 'bool':
+                b['blocks'][bb]['term'] = {'k': 'switch', 'discr': copy.deepcopy(a0), 'discr_ty': 'bool', 'targets': [[0, b_other]], 'otherwise': b_call, 'span': span}
+            else:
+                b['blocks'][bb]['stmts'].append({'k': 'assign', 'dest': {'local': disc, 'proj': []}, 'rv': {'k': 'discr', 'place': copy.deepcopy(xp)}, 'span': span})
+                b['blocks'][bb]['term'] = {'k': 'switch', 'discr': {'k': 'move', 'place': {'local': disc, 'proj': []}}, 'discr_ty': 'isize',
+                                           'targets': [[vidx, b_call]], 'otherwise': b_other, 'span': span}
             cleanup = b['blocks'][bb]['cleanup']
             # the arm that runs the closure
             args = [copy.deepcopy(a1)]
             stmts = []
-            if nargs >= 1:
+            if nargs >= 1 and adt != 'bool':
                 v = _mk_local(b, orig['locals'][2]['ty'] if len(orig['locals']) > 2 else '?')
                 stmts.append({'k': 'assign', 'dest': {'local': v, 'proj': []},
                               'rv': {'k': 'use', 'op': {'k': 'move', 'place': _variant_field(xp['local'], xp['proj'], adt, vname, vidx, b['locals'][v]['ty'])}}, 'span': span})
@@ -1149,7 +1160,9 @@ def model_std_adaptors(j, closure_keys):
             call = {'k': 'call', 'callee': {'key': agg['closure'], 'resolved': agg['closure'], 'name': 'call_once', 'krate': j['crate'], 'pretty': orig['pretty'], 'path': orig['pretty']},
                     'args': args, 'arg_tys': [], 'dest': {'local': r, 'proj': []}, 'target': b_after, 'unwind': unwind, 'span': span}
             b['blocks'].append({'cleanup': cleanup, 'stmts': stmts, 'term': call})
-            if result[0] == 'wrap':
+            if result[0] == 'wrap-some':
+                rv = {'k': 'aggregate', 'agg': 'adt', 'adt': 'core::option::Option', 'variant': 'Some', 'args': [], 'field_names': ['0'], 'fields': [{'k': 'move', 'place': {'local': r, 'proj': []}}]}
+            elif result[0] == 'wrap':
                 rv = {'k': 'aggregate', 'agg': 'adt', 'adt': adt, 'variant': result[1], 'args': [], 'field_names': ['0'], 'fields': [{'k': 'move', 'place': {'local': r, 'proj': []}}]}
             else:
                 rv = {'k': 'use', 'op': {'k': 'move', 'place': {'local': r, 'proj': []}}}
@@ -1161,8 +1174,10 @@ def model_std_adaptors(j, closure_keys):
                 st2 = [{'k': 'assign', 'dest': {'local': e, 'proj': []}, 'rv': {'k': 'use', 'op': {'k': 'move', 'place': _variant_field(xp['local'], xp['proj'], adt, other[1], other[2])}}, 'span': span},
                        {'k': 'assign', 'dest': copy.deepcopy(dest), 'rv': {'k': 'aggregate', 'agg': 'adt', 'adt': adt, 'variant': other[1], 'args': [], 'field_names': ['0'],
                                                                            'fields': [{'k': 'move', 'place': {'local': e, 'proj': []}}]}, 'span': span}]
+            elif other[0] == 'default':
+                st2 = [{'k': 'assign', 'dest': copy.deepcopy(dest), 'rv': {'k': 'use', 'op': copy.deepcopy(default_op)}, 'span': span}]
             elif other[0] == 'unit':
-                st2 = [{'k': 'assign', 'dest': copy.deepcopy(dest), 'rv': {'k': 'aggregate', 'agg': 'adt', 'adt': adt, 'variant': other[1], 'args': [], 'field_names': [], 'fields': []}, 'span': span}]
+                st2 = [{'k': 'assign', 'dest': copy.deepcopy(dest), 'rv': {'k': 'aggregate', 'agg': 'adt', 'adt': 'core::option::Option' if adt == 'bool' else adt, 'variant': other[1], 'args': [], 'field_names': [], 'fields': []}, 'span': span}]
             else:  # payload
                 st2 = [{'k': 'assign', 'dest': copy.deepcopy(dest), 'rv': {'k': 'use', 'op': {'k': 'move', 'place': _variant_field(xp['local'], xp['proj'], adt, other[1], other[2])}}, 'span': span}]
             b['blocks'].append({'cleanup': cleanup, 'stmts': st2, 'term': {'k': 'goto', 'target': target, 'span': span}})
